@@ -264,6 +264,11 @@ class CallTracer:
         if trace is None:
             return
         elif last_opcode == YIELD_VALUE_OPCODE:
+            if frame.f_code.co_flags & inspect.CO_COROUTINE:
+                # A coroutine suspending on an await: the value travelling up to
+                # the event loop is not something the coroutine yields, and the
+                # call is not over.
+                return
             trace.add_yield_type(typ)
         else:
             if last_opcode in (RETURN_VALUE_OPCODE, RETURN_CONST_OPCODE):
